@@ -134,6 +134,20 @@ CLAIMS = {
               "windows is not proved); SQLite is trusted."),
         technique="Lean 4 proof (maximality / subset lemmas for the greedy passes, permutation of the sort) + pipeline differential check + text oracle",
         ref="DESIGN.md §3 C03"),
+    "C04": dict(
+        text=("Kernel-checked theorems about the generic suppression engine (modelled on real line text): a violation on an ordinary line is "
+              "silenced by the block mechanism iff the nearest ignore-start/ignore-end marker above it is an ignore-start naming its rule "
+              "(block_scope_exact: induction over the scan with a prefix invariant, every file and line); directives naming other rules "
+              "change nothing; every documented spelling of every rule id of the code base matches it and never another linter's rule "
+              "(regenerated tables, decide); all 64 directive cells (form x #,// x thailint/design-lint x case x bare) are honoured and "
+              "do not leak. The Lean engine is run on the same text as the real IgnoreDirectiveParser for generated files, and 18 linter x "
+              "language cells are exercised through the CLI with inserted directives. Six genuine defects repaired (fix: b019dd1, 941ccd3, "
+              "caa0cf6, 52e96d9, method-property); four linters without any ignore plumbing are recorded (F04p:*)."),
+        note=("Python's re is re-stated as string functions (validated on every generated file); which linters route their violations "
+              "through the engine is observed per linter, not modelled; linter-specific extras (DRY inline ranges, TS noqa) are only "
+              "exercised, not modelled; repository/linter-level ignore patterns are C14/C09's subject."),
+        technique="Lean 4 proof (invariant induction over the line scan; decide over regenerated tables and the 64-cell matrix) + engine and CLI differential runs",
+        ref="DESIGN.md §3 C04"),
 }
 ALL = [f"C{n:02d}" for n in range(1, 21)]
 NOT_YET = "machinery for this property is not built yet in this revision of /verif (planned, see DESIGN.md §3); not claimed"
